@@ -1,6 +1,8 @@
 import SF.Props.C11
 #print axioms SF.C11.superSmoother_eq
 #print axioms SF.C11.laguerreFilter_eq
+#print axioms SF.C11.trendFlex_eq
+#print axioms SF.C11.reFlex_eq
 #print axioms SF.C11.laguerreRsi_eq
 #print axioms SF.C11.laguerre_ladder_step
 #print axioms SF.C11.roofing_eq
